@@ -33,8 +33,25 @@ def rules_table():
         for r in e["coverage"]["rules"]:
             rows.append("| %s | %s | %s | %d (%s) | %s |" % (e["property_id"], r["id"], r["kind"], r["instances"], r["floor"], r["statement"].replace("|", "\\|")))
     return "\n".join(rows)
+def findings_table():
+    import subprocess
+    d = json.load(open(os.path.join(V, "known_findings.json")))
+    rows = ["| # | property | rule key that reported it | `fix:` commit in /repo | what failed, and the witness against the real code |", "|---|---|---|---|---|"]
+    for i, line in enumerate(d.get("fixed", []), 1):
+        m = re.match(r"fixed: property=(\S+) (\S+) (.*)", line, re.S)
+        prop, commit, rest = m.group(1), m.group(2), m.group(3)
+        keys = re.findall(r"keys? ([^;)]+?)(?:;|\)| and \.\.\.)", rest)
+        try:
+            subj = subprocess.check_output(["git", "-C", "/repo", "log", "--format=%s", "-1", commit], text=True).strip()
+        except Exception:
+            subj = ""
+        rows.append("| F%d | %s | `%s` | `%s %s` | %s |" % (i, prop, (keys[0] if keys else "").replace("|", "\\|")[:150], commit, subj.replace("|", "\\|"),
+                                                       rest.replace("|", "\\|").replace("\n", " ")))
+    for f in d.get("findings", []):
+        rows.append("| open | %s | `%s` | (not repaired: KNOWN-FINDING) | %s |" % (f["property"], f["key"].replace("|", "\\|"), f["what"].replace("|", "\\|")))
+    return "\n".join(rows)
 p = os.path.join(V, "DESIGN.md"); s = open(p).read()
-for name, fn in (("mutants", mutants_table), ("seeded", seeded_table), ("rules", rules_table)):
+for name, fn in (("mutants", mutants_table), ("seeded", seeded_table), ("rules", rules_table), ("findings", findings_table)):
     b, e = "<!-- BEGIN:%s -->" % name, "<!-- END:%s -->" % name
     if b in s and e in s:
         s = s[:s.index(b) + len(b)] + "\n" + fn() + "\n" + s[s.index(e):]
